@@ -1338,7 +1338,7 @@ fn main() {
         r.finish();
     }
 
-    let max_len: u64 = r.pick(3, 5);
+    let max_len: u64 = r.pick(4, 5);
     let alphabet: u8 = r.pick(4, 5);
     let cfg = Cfg {
         depth: r.pick(2, 3),
